@@ -61,6 +61,7 @@ func (c *c14) Cases(tier string, seed int64) []core.Case {
 	for _, f := range []string{"par2", "par1"} {
 		cs = append(cs, core.MkCase(f+"-dangling-link", c14Params{Seed: sd, Fmt: f, Mode: "dangling"}))
 		cs = append(cs, core.MkCase(f+"-all-data-lost", c14Params{Seed: r.Int63(), Fmt: f, Mode: "all-lost"}))
+		cs = append(cs, core.MkCase(f+"-copy-deleted", c14Params{Seed: r.Int63(), Fmt: f, Mode: "copy-deleted"}))
 	}
 	n := map[string]int{"quick": 16, "thorough": 1000}[tier]
 	for i := 0; i < n; i++ {
@@ -523,6 +524,10 @@ func (c *c14) runAllLost(r *core.R, p c14Params) {
 			if trial%4 == 3 && i == 0 {
 				b = scen.GenData(rng, "random", 16385+rng.Intn(4000), slice)
 			}
+			if trial%3 == 1 && i > 0 {
+				// the same bytes under a second (third) name
+				b = append([]byte(nil), datas[0]...)
+			}
 			pth := filepath.Join(dir, fmt.Sprintf("all%d.bin", i))
 			os.WriteFile(pth, b, 0644)
 			paths = append(paths, pth)
@@ -589,10 +594,112 @@ func (c *c14) runAllLost(r *core.R, p c14Params) {
 	r.Sample(map[string]interface{}{"mode": "all-lost", "format": p.Fmt})
 }
 
+// runCopyDeleted: the set protects a file and an exact copy of it (plus a
+// third file). The copy is deleted: it is missing, however complete its
+// content is elsewhere. Verify must say so, Repair must bring it back - with
+// and without recovery files - and then everything is clean.
+func (c *c14) runCopyDeleted(r *core.R, p c14Params) {
+	rng := rand.New(rand.NewSource(p.Seed))
+	for trial := 0; trial < 8; trial++ {
+		root, err := os.MkdirTemp("", "c14copy-")
+		if err != nil {
+			r.Inconclusive("tempdir: %v", err)
+			return
+		}
+		dir := filepath.Join(root, "set")
+		os.MkdirAll(dir, 0755)
+		slice := []int{4, 16, 64}[rng.Intn(3)]
+		orig := scen.GenData(rng, "random", slice*(2+rng.Intn(4))+rng.Intn(slice), slice)
+		names := []string{"a original.bin", "b copy.bin", "c other.bin"}
+		if trial%2 == 1 {
+			names = []string{"z original.bin", "b copy.bin", "c other.bin"} // other ID order
+		}
+		datas := [][]byte{orig, append([]byte(nil), orig...), scen.GenData(rng, "random", 1+rng.Intn(3*slice), slice)}
+		var paths []string
+		for i, n := range names {
+			pth := filepath.Join(dir, n)
+			os.WriteFile(pth, datas[i], 0644)
+			paths = append(paths, pth)
+		}
+		blocks := 1 + rng.Intn(2) // fewer blocks than the copy has slices
+		var idx string
+		var cerr error
+		if p.Fmt == "par2" {
+			idx = filepath.Join(dir, "copy.par2")
+			cerr = par2.Create(idx, paths, par2.CreateOptions{SliceByteCount: slice, NumParityShards: blocks, NumGoroutines: 2})
+		} else {
+			idx = filepath.Join(dir, "copy.par")
+			cerr = par1.Create(idx, paths, par1.CreateOptions{NumParityFiles: 2})
+		}
+		if cerr != nil {
+			r.Violate("setup-create-failed", "%v", cerr)
+			os.RemoveAll(root)
+			return
+		}
+		if trial >= 4 && p.Fmt == "par2" {
+			// no recovery file left: the copy can still be put back from its twin
+			ents, _ := os.ReadDir(dir)
+			for _, e := range ents {
+				if strings.Contains(e.Name(), ".vol") {
+					os.Remove(filepath.Join(dir, e.Name()))
+				}
+			}
+		}
+		victim := 1
+		if trial%4 >= 2 {
+			victim = 0
+		}
+		os.Remove(paths[victim])
+		desc := fmt.Sprintf("%s: %q and %q hold the same %d bytes (slice %d, %d blocks, trial %d); %q deleted", p.Fmt, names[0], names[1], len(orig), slice, blocks, trial, names[victim])
+		core.Note("C14 %s", desc)
+		clean := func() (bool, error) {
+			if p.Fmt == "par2" {
+				vr, err := par2.Verify(idx, par2.VerifyOptions{NumGoroutines: 2})
+				return err == nil && !vr.ShardCounts.RepairNeeded(), err
+			}
+			vr, err := par1.Verify(idx, par1.VerifyOptions{})
+			return err == nil && !vr.FileCounts.RepairNeeded(), err
+		}
+		var c1, c2 bool
+		var verr, rerr error
+		pi := core.Protect(func() {
+			c1, verr = clean()
+			if p.Fmt == "par2" {
+				_, rerr = par2.Repair(idx, par2.RepairOptions{NumGoroutines: 2, DoubleCheck: trial%2 == 0})
+			} else {
+				_, rerr = par1.Repair(idx, par1.RepairOptions{DoubleCheck: trial%2 == 0})
+			}
+			c2, _ = clean()
+		})
+		switch {
+		case pi != nil:
+			r.Violate(core.CrashSig(p.Fmt, pi.Frame, pi.Msg), "%s: panic %s", desc, pi.Msg)
+		case verr == nil && c1:
+			r.Violate("verify-clean-mismatch", "%s: Verify reports nothing to repair while the file is missing", desc)
+		case rerr != nil:
+			r.Violate("repair-does-not-converge", "%s: Repair fails: %v", desc, rerr)
+		default:
+			if b, err := os.ReadFile(paths[victim]); err != nil || string(b) != string(datas[victim]) {
+				r.Violate("successful-repair-left-damage", "%s: Repair returned nil but the file is not back", desc)
+			} else if !c2 {
+				r.Violate("verify-not-clean-after-successful-repair", "%s", desc)
+			}
+		}
+		r.Count("copy_deleted_histories", 1)
+		r.Key("copy-deleted|%s|%d", p.Fmt, trial)
+		os.RemoveAll(root)
+	}
+	r.Sample(map[string]interface{}{"mode": "copy-deleted", "format": p.Fmt})
+}
+
 func (c *c14) Run(cs core.Case) core.Result {
 	var p c14Params
 	core.Decode(cs, &p)
 	r := core.NewR(cs)
+	if p.Mode == "copy-deleted" {
+		c.runCopyDeleted(r, p)
+		return r.Done()
+	}
 	if p.Mode == "all-lost" {
 		c.runAllLost(r, p)
 		return r.Done()
